@@ -59,7 +59,7 @@ CONTRACTS = [
     dict(key='Module.__init__', vc=False, file='frappy/modulebase.py', func='Module.__init__', serves=['C09'], self_type='Module',
          requires=[], ensures={'shares_nothing': 'SharesNothing(self, other_accessibles)',
                                'others_unchanged': 'DescriptionsKept(descriptions_before, DESCRIBE())'},
-         raises={}),
+         raises='never'),
     dict(key='iface::DataType.copy', file=None, func=None, signature='self', serves=[], trusted=True, requires=[],
          ensures={}, raises='never', result_fresh=True),
     dict(key='new::Command', file=None, func=None, packed_args=True, serves=[], trusted=True, requires=[],
